@@ -69,7 +69,12 @@ def run(tier, seed):
                 ver.add({'wt': 'f32', 'kind': 'sample_bad_index'}, e)
             if np.any(dev > tol):
                 i = int(np.argmax(dev))
-                ver.add({'wt': 'f32', 'kind': 'law', 'fresh': e['fresh']}, {'tree': e['tree'], 'index': i, 'exact_freq': float(exact[i]), 'want': float(g[i] / tot), 'tol': tol, 'model': e['model'], 'seed': e['seed']})
+                # a negative get(i) (rounding residue left by the update history) cannot be sampled with
+                # negative probability: the sampler necessarily deviates from get()/total by up to that residue
+                neg = float(-g[g < 0].sum())
+                within = bool(neg > 0 and not e['fresh'] and dev.max() * abs(tot) <= 2.0 * neg + tol * abs(tot))
+                ver.add({'wt': 'f32', 'kind': 'law', 'fresh': e['fresh'], 'within_negative_residue': within},
+                        {'tree': e['tree'], 'index': i, 'exact_freq': float(exact[i]), 'want': float(g[i] / tot), 'tol': tol, 'negative_get_sum': neg, 'get': e['get'], 'model': e['model'], 'seed': e['seed']})
             if np.any((g == 0) & (c > 0)):
                 ver.add({'wt': 'f32', 'kind': 'zero_weight_index_returned'}, {'tree': e['tree'], 'model': e['model']})
             if len(samples) < 2:
@@ -96,7 +101,10 @@ def run(tier, seed):
             if np.any(dev > tol * np.maximum(1.0, 0)):
                 # relative to total 1: widths are fractions of the unit interval
                 i = int(np.argmax(dev))
-                ver.add({'wt': 'f64', 'kind': 'law', 'fresh': e['fresh']}, {'tree': e['tree'], 'rank': i, 'index': order[i], 'width': float(w[i]), 'want': float(want[i]), 'tol': tol, 'model': e['model'], 'seed': e['seed']})
+                neg = float(-g[g < 0].sum())
+                within = bool(neg > 0 and not e['fresh'] and dev.max() * abs(g.sum()) <= 2.0 * neg + tol * abs(g.sum()))
+                ver.add({'wt': 'f64', 'kind': 'law', 'fresh': e['fresh'], 'within_negative_residue': within},
+                        {'tree': e['tree'], 'rank': i, 'index': order[i], 'width': float(w[i]), 'want': float(want[i]), 'tol': tol, 'negative_get_sum': neg, 'get': e['get'], 'model': e['model'], 'seed': e['seed']})
             if np.any((g[order] == 0) & (w > 0)):
                 ver.add({'wt': 'f64', 'kind': 'zero_weight_index_returned'}, {'tree': e['tree'], 'model': e['model']})
             if len(samples) < 4:
